@@ -270,6 +270,9 @@ var c25Progs = []c25Prog{
 	{"é: 世界 😀\nlong label with several words here -> é\n", "dagre", false},
 	{"a; b\nlayers: {l: {c -> d}}\nscenarios: {s: {a: changed}}\n", "dagre", false},
 	{"a -> b: {source-arrowhead: 1 {shape: diamond}; target-arrowhead: * {shape: cf-many}}\nb -> b\n", "dagre", true},
+	// TeX definitions made in one diagram and used, undefined, in another: a typesetter kept across renders would leak them
+	{"d: |latex \\DeclareMathOperator{\\zq}{zq} \\definecolor{zc}{RGB}{200,30,30} \\newcommand{\\zn}{n+1} \\zq x + \\color{zc} \\zn |\nd -> e\n", "dagre", false},
+	{"u: |latex \\zq x + \\color{zc} \\zn |\nu -> v\n", "dagre", false},
 }
 
 var (
@@ -439,7 +442,7 @@ func init() {
 	eng.Register(&eng.Check{
 		ID: "C25", Level: "model_checking", Workers: 8, HangBound: 900 * time.Second,
 		Pre: func() { freshRefs("C25", "c25-ref", len(c25Progs)) },
-		Rule: "histories: every ordered sequence of ≤2 (quick) / ≤3 (thorough) compile→layout→render runs over 16 diagrams chosen to touch every shared resource (dagre and ELK, sketch on/off, default and mono fonts, markdown, code, latex, class, sql_table, sequence, grid, near, 3d/multiple/patterns, icons, tooltips/links, themes and gradients, non-ASCII text, boards, arrowhead labels) in one process; every SVG of the history and one more repetition of the last are compared bytewise (sha256) with the same diagram rendered in a fresh process. schedules: the per-run source scan of the render closure lists every package-level variable written outside init (font registry behind a mutex, the JS runner's once); all pairs (thorough: triples of the first 8) are additionally rendered concurrently on real threads. states = histories, transitions = renders",
+		Rule: "histories: every ordered sequence of ≤2 (quick) / ≤3 (thorough) compile→layout→render runs over 18 diagrams chosen to touch every shared resource (dagre and ELK, sketch on/off, default and mono fonts, markdown, code, latex, class, sql_table, sequence, grid, near, 3d/multiple/patterns, icons, tooltips/links, themes and gradients, non-ASCII text, boards, arrowhead labels) in one process; every SVG of the history and one more repetition of the last are compared bytewise (sha256) with the same diagram rendered in a fresh process. schedules: the per-run source scan of the render closure lists every package-level variable written outside init (font registry behind a mutex, the JS runner's once); all pairs (thorough: triples of the first 8) are additionally rendered concurrently on real threads. states = histories, transitions = renders",
 		Assumptions: []string{"the schedule quantifier is decided only up to the independence argument of the scan plus the free-running concurrent pass; goja / chroma / goldmark internals are not instrumented", "varying GOMAXPROCS is not enumerated"},
 		Oracles: map[string]eng.Oracle{"history": c25Seq, "concurrent": c25Concurrent},
 		Run: func(w *eng.W) {
